@@ -221,8 +221,11 @@ pub fn finish_chunk(w: W, pad: usize, rng: &mut Rng) -> ChunkBuf {
     bytes.extend_from_slice(&w.b);
     if pad > 0 {
         fields.push(Field { off: bytes.len(), len: pad, kind: Kind::Reserved, name: "padding".into(), chunk: ctype });
+        // padding is zero-filled half of the time (what a writer that rounds chunk sizes up would do)
+        let zero = rng.next() % 2 == 0;
         for _ in 0..pad {
-            bytes.push(rng.next() as u8);
+            let b = rng.next() as u8;
+            bytes.push(if zero { 0 } else { b });
         }
     }
     ChunkBuf { ctype, bytes, fields }
